@@ -26,9 +26,12 @@ LEVEL_TEXT = ("Every node of every generated result is checked for identity alon
 LEVEL_NOTE = "Trusted: vlib/ref/normpath.py; identity is checked by walking the location with plain Python indexing."
 
 
-def check_nodes(nodelist, doc, want_classes=None):
+def check_nodes(nodelist, doc, want_classes=None, requery=True):
     """Return a failure dict or None for a JSONPathNodeList."""
-    vals, paths, items = nodelist.values(), nodelist.paths(), nodelist.items()
+    try:
+        vals, paths, items = nodelist.values(), nodelist.paths(), nodelist.items()
+    except Exception as e:  # noqa: BLE001
+        return fail(f"helpers:raised:{type(e).__name__}", f"values()/paths()/items() raised {type(e).__name__}: {str(e)[:80]}", None, repr(e)[:200])
     if len(vals) != len(nodelist) or len(paths) != len(nodelist) or len(items) != len(nodelist):
         return fail("helpers:length", "values()/paths()/items() lengths differ from the nodelist", None, None)
     for i, node in enumerate(nodelist):
@@ -63,7 +66,12 @@ def check_nodes(nodelist, doc, want_classes=None):
             return fail("path:not-canonical", f"path() is {p!r}, the normalized path is {expected!r}", expected, p)
         if normpath.recognise(p) != loc:
             return fail("path:grammar", f"path() {p!r} is not a normalized path for {loc!r}", loc, p)
-        # 3. re-query
+        # 3. re-query (not for locations of hundreds of steps: a query of that many segments is beyond what the
+        # evaluator's generator pipeline can run, which is a resource limit and not this property's subject)
+        if not requery or len(loc) > 300:
+            if vals[i] is not node.value or paths[i] != p or items[i][0] != p or items[i][1] is not node.value:
+                return fail("helpers:disagree", "values()/paths()/items() disagree with the node", list(loc)[:6], None)
+            continue
         st, got = lib.compile_(p)
         if st != "ok":
             return fail("requery:refused", f"path() {p!r} does not compile: {got['type']}: {got['str']}", loc, got)
@@ -100,7 +108,53 @@ def needs_escape(name):
     return any(c in "'\\" or ord(c) < 0x20 or ord(c) > 0x7E for c in name) or name == ""
 
 
+def deep_doc(depth, shape):
+    leaf = {"leaf": True, "x": 1}
+    v = leaf
+    for i in range(depth):
+        k = shape if shape != "mix" else ("arr" if i % 2 else "obj")
+        v = [0, v] if k == "arr" else {"k": v, "a'b": 0}
+    return v
+
+
+def examine_deep(case):
+    """Nodes hundreds or thousands of levels down (an environment whose max_recursion_depth allows it): location,
+    path(), paths(), items(), values() - whatever order they are asked in."""
+    with lib.host_stack():
+        return _examine_deep(case)
+
+
+def _examine_deep(case):
+    doc = deep_doc(case["depth"], case["shape"])
+    env = lib.make_env(max_recursion_depth=100000)
+    st, cq = lib.compile_(case["q"], env)
+    if st != "ok":
+        return fail(f"compile:{cq['type']}", f"{case['q']!r} does not compile", None, cq)
+    try:
+        nodes = cq.find(doc)
+    except Exception as e:  # noqa: BLE001
+        return fail(f"find-raised:{type(e).__name__}", f"find({case['q']!r}) on a value nested {case['depth']} levels raised {type(e).__name__}", None, repr(e)[:200])
+    if case.get("order") == "helpers-first":
+        try:
+            nodes.paths(), nodes.items()
+        except Exception as e:  # noqa: BLE001
+            return fail(f"helpers:raised:{type(e).__name__}", f"paths()/items() of nodes {case['depth']} levels down raised {type(e).__name__}", None, repr(e)[:200])
+    elif case.get("order") == "deepest-first":
+        try:
+            for n in reversed(nodes):
+                n.location, n.path()
+        except Exception as e:  # noqa: BLE001
+            return fail(f"path:raised:{type(e).__name__}", f"location/path() of a node {case['depth']} levels down raised {type(e).__name__}", None, repr(e)[:200])
+    f = check_nodes(nodes, doc, requery=False)
+    if f:
+        f["what"] = f"value nested {case['depth']} levels ({case['shape']}), {case['q']}: " + f["what"]
+        f["expected"] = f["observed"] = None
+    return f
+
+
 def examine(case):
+    if case.get("kind") == "deep":
+        return examine_deep(case)
     doc = case["doc"]
     if case.get("kind") == "sweep":
         doc = {chr(c): [c] for c in range(case["lo"], case["hi"]) if not 0xD800 <= c <= 0xDFFF}
@@ -153,6 +207,7 @@ def plan(tier, seed):
         specs += [{"mode": "hyp", "n": 250} for _ in range(16)]
     else:
         specs += [{"mode": "hyp", "n": 6000} for _ in range(16)]
+    specs.append({"mode": "deep"})
     return specs
 
 
@@ -173,6 +228,18 @@ def run_shard(spec, shard):
             shard.exhaustive["single-character-member-names"] = "every Unicode scalar value U+0000-U+10FFFF as a member name"
         else:
             shard.exhaustive["single-character-member-names-quick"] = "U+0000-U+02FF, range edges and a stride of 0x1357"
+        return
+
+    if spec["mode"] == "deep":
+        for depth in (300, 1100, 3000):
+            for shape in ("obj", "arr", "mix"):
+                for q in ("$..leaf", "$..[?@.leaf == true]", "$..x"):
+                    for order in ("plain", "helpers-first", "deepest-first"):
+                        case = {"kind": "deep", "depth": depth, "shape": shape, "q": q, "order": order}
+                        shard.case(key=("deep", depth, shape, q, order), nontrivial=True, classes={"deep-location"}, sample=case)
+                        f = examine(case)
+                        if f:
+                            shard.fail(f["bucket"], case, f)
         return
 
     def body(r):
@@ -223,6 +290,8 @@ def run_shard(spec, shard):
 
 
 def minimise(case, failure, tier):
+    if case.get("kind") == "deep":
+        return case, failure
     if case.get("kind") == "sweep":
         lo, hi = case["lo"], case["hi"]
         bucket = failure["bucket"]
